@@ -1114,9 +1114,12 @@ pub(crate) fn interpret_isodatetime_offset(
 
     // 2. Let isoDateTime be CombineISODateAndTimeRecord(isoDate, time).
     // TODO: Deal with offsetBehavior == wall.
-    match (is_exact, offset_nanos) {
+    // NOTE: an exact offset behaviour (a `Z` designator) carries no offset value, i.e. an offset of 0.
+    let exact_or_use = is_exact || (offset_nanos.is_some() && offset_option == OffsetDisambiguation::Use);
+    match (exact_or_use, offset_nanos) {
         // 4. If offsetBehaviour is exact, or offsetBehaviour is option and offsetOption is use, then
-        (true, Some(offset)) if offset_option == OffsetDisambiguation::Use => {
+        (true, offset) => {
+            let offset = offset.unwrap_or(0);
             // a. Let balanced be BalanceISODateTime(isoDate.[[Year]], isoDate.[[Month]],
             // isoDate.[[Day]], time.[[Hour]], time.[[Minute]], time.[[Second]], time.[[Millisecond]],
             // time.[[Microsecond]], time.[[Nanosecond]] - offsetNanoseconds).
